@@ -14,6 +14,8 @@ pub static mut FILE_DATA: [u8; FCAP] = [0; FCAP];
 pub static mut FILE_POS: usize = 0;
 /// bytes the metadata over-reports (the read then ends early: I/O error path of the loaders)
 pub static mut FILE_OVER: usize = 0;
+/// make every read of the file fail with an I/O error
+pub static mut FILE_FAIL_READ: bool = false;
 /// bytes handed to `<File as Write>::write` (store)
 pub static mut OUT_DATA: [u8; FCAP] = [0; FCAP];
 pub static mut OUT_LEN: usize = 0;
@@ -89,6 +91,9 @@ pub fn oo_open_stub<P: AsRef<Path>>(_o: &std::fs::OpenOptions, _p: P) -> io::Res
 /// Delivers the whole request (short reads are C14's subject).
 pub fn read_stub(_f: &mut File, buf: &mut [u8]) -> io::Result<usize> {
     unsafe {
+        if FILE_FAIL_READ {
+            return Err(io::Error::from(io::ErrorKind::Other));
+        }
         let rem = FILE_LEN - FILE_POS;
         let n = if buf.len() < rem { buf.len() } else { rem };
         buf[..n].copy_from_slice(&FILE_DATA[FILE_POS..FILE_POS + n]);
